@@ -359,15 +359,18 @@ func c16GenTrace(h *c16, rng *Rng, emit func(string) string, nOps int) {
 				emit(fmt.Sprintf("vote a%d %s", a, ws))
 				continue
 			}
-			if len(delegs(a)) == 0 && rng.Chance(70) {
+			if h.stakeTotal(h.f.Ctx, a).LT(h.minVP) && rng.Chance(85) {
 				// make the vote possible first
-				emit(fmt.Sprintf("delegate a%d v%d %s", a, val(), dym.MulRaw(int64(1+rng.Intn(9))).AddRaw(int64(rng.Intn(100)))))
+				emit(fmt.Sprintf("delegate a%d v%d %s", a, val(), h.minVP.Add(dym.MulRaw(int64(rng.Intn(9)))).AddRaw(int64(rng.Intn(100)))))
 			}
 			emit(fmt.Sprintf("vote a%d %s", a, c16ValidWeights(h, rng)))
 		case k < 65: // revoke
 			vs := voters()
-			if perturb || len(vs) == 0 {
+			if perturb {
 				emit(fmt.Sprintf("revoke a%d", act()))
+				continue
+			}
+			if len(vs) == 0 {
 				continue
 			}
 			emit(fmt.Sprintf("revoke a%d", vs[rng.Intn(len(vs))]))
@@ -382,6 +385,26 @@ func c16GenTrace(h *c16, rng *Rng, emit func(string) string, nOps int) {
 			}
 			a := vs[rng.Intn(len(vs))]
 			g := h.eG[rng.Intn(len(h.eG))]
+			if !perturb {
+				// a voter who may claim, on a gauge of a rollapp it endorses
+				var cand [][2]int
+				for _, x := range vs {
+					if h.blacklisted(x) && !rng.Chance(10) {
+						continue
+					}
+					v, _ := h.vote(x)
+					for gi, eg := range h.eG {
+						if !v.GetGaugePower(h.raGauge[h.eGr[eg]]).IsZero() {
+							cand = append(cand, [2]int{x, gi})
+						}
+					}
+				}
+				if len(cand) == 0 {
+					continue
+				}
+				c := cand[rng.Intn(len(cand))]
+				a, g = c[0], h.eG[c[1]]
+			}
 			if perturb {
 				switch rng.Intn(4) {
 				case 0:
@@ -522,6 +545,29 @@ func c16Corpus(h *c16, emit func(string) string, endTrace func()) {
 	emit(fmt.Sprintf("vote a0 %d:%s", ra0, c16MaxW))
 	emit("end")
 	emit("begin 6")
+	emit(fmt.Sprintf("claim a0 %d", g0+3))
+	emit("end")
+	endTrace()
+
+	// (7) Merge keeps the tails unfiltered: after the hook lost one unit, pruning the vote stores −1
+	c16Header(h, emit, def, "1", hundred, hundred, 2, false)
+	emit("begin 6")
+	emit("delegate a0 v0 1")
+	emit(fmt.Sprintf("vote a0 %d:%s", g0, half))
+	emit("delegate a0 v0 1")
+	emit("undelegate a0 v0 2")
+	emit("end")
+	endTrace()
+
+	// (6) not a property clause, a model branch: EpochShares = 0 with non-zero power => big.Int.Quo
+	// by zero panics inside the claim (a failed transaction)
+	c16Header(h, emit, "1", "1", hundred, hundred, 2, false)
+	emit("begin 6")
+	emit("delegate a0 v0 1")
+	emit(fmt.Sprintf("vote a0 %d:%s", ra0, half))
+	emit("end")
+	emit("begin 604801")
+	emit(fmt.Sprintf("delegate a0 v0 %s", dym))
 	emit(fmt.Sprintf("claim a0 %d", g0+3))
 	emit("end")
 	endTrace()
